@@ -83,6 +83,8 @@ type GeomOpts struct {
 	// FirstNonEmpty forces >=1 member and >=1 vertex in the first member (GeoJSON precondition)
 	FirstNonEmpty bool
 	Coord         *rapid.Generator[float64]
+	// ExactGrid: the caller relies on every coordinate being a value of Coord (an exact grid); no vertex is nudged by ulps
+	ExactGrid bool
 }
 
 var AllSeven = []string{"Point", "MultiPoint", "LineString", "MultiLineString", "Polygon", "MultiPolygon", "GeometryCollection"}
@@ -95,6 +97,40 @@ func (o GeomOpts) pts(t *rapid.T, min int) []P2 {
 	out := make([]P2, n)
 	for i := range out {
 		out[i] = MkP(o.Coord.Draw(t, "x"), o.Coord.Draw(t, "y"))
+	}
+	// closed and NEARLY closed / nearly repeated vertices: one vertex becomes a copy of another (the last of the first:
+	// a closed ring), or a copy moved by one or a few hundred ulps, or by the sign of a zero
+	if n >= 2 && !o.ExactGrid && rapid.IntRange(0, 5).Draw(t, "neardup") == 3 {
+		src, dst := 0, n-1
+		if rapid.IntRange(0, 2).Draw(t, "anypair") == 1 {
+			src, dst = rapid.IntRange(0, n-1).Draw(t, "dupsrc"), rapid.IntRange(0, n-1).Draw(t, "dupdst")
+		}
+		if src != dst {
+			nudge := func(v float64) float64 {
+				fin := func(r float64) float64 { // never turn a finite coordinate into an infinite one
+					if math.IsInf(r, 0) || math.IsNaN(r) {
+						return v
+					}
+					return r
+				}
+				switch rapid.IntRange(0, 4).Draw(t, "nudge") {
+				case 1:
+					return fin(math.Nextafter(v, math.Inf(1)))
+				case 2:
+					return fin(math.Nextafter(v, math.Inf(-1)))
+				case 3:
+					if v != 0 && !math.IsInf(v, 0) && !math.IsNaN(v) {
+						return fin(v * (1 + float64(rapid.IntRange(-400, 400).Draw(t, "ulps"))*0x1p-52))
+					}
+				case 4:
+					if v == 0 {
+						return math.Copysign(0, -1)
+					}
+				}
+				return v
+			}
+			out[dst] = MkP(nudge(float64(out[src][0])), nudge(float64(out[src][1])))
+		}
 	}
 	return out
 }
